@@ -50,6 +50,20 @@ func HardFail(format string, a ...interface{}) {
 	os.Exit(2)
 }
 
+// AnchorError is raised (as a panic) when a construct the rules of a
+// property are written against is gone from a tree that loads and
+// type-checks. The driver turns it into an undecided obligation of the
+// property being checked: the property cannot be shown to hold on this
+// tree, which is reported like a violation (exit 1), naming the anchor.
+type AnchorError struct{ Msg string }
+
+func (e AnchorError) Error() string { return e.Msg }
+
+// AnchorFail raises an AnchorError.
+func AnchorFail(format string, a ...interface{}) {
+	panic(AnchorError{Msg: fmt.Sprintf(format, a...)})
+}
+
 // Load loads ./... below dir.
 func Load(dir string) *Prog {
 	t0 := time.Now()
@@ -146,12 +160,33 @@ func (p *Prog) Func(name string) *ssa.Function {
 	if f := p.byName[name]; f != nil {
 		return f
 	}
-	HardFail("anchor function %s not found in %s", name, p.Dir)
+	if f := p.byName[otherReceiverKind(name)]; f != nil {
+		return f
+	}
+	AnchorFail("anchor function %s not found in %s", name, p.Dir)
 	return nil
 }
 
 // FuncOpt is Func without the hard failure.
-func (p *Prog) FuncOpt(name string) *ssa.Function { return p.byName[name] }
+func (p *Prog) FuncOpt(name string) *ssa.Function {
+	if f := p.byName[name]; f != nil {
+		return f
+	}
+	return p.byName[otherReceiverKind(name)]
+}
+
+// otherReceiverKind maps "(*T).M" to "(T).M" and back: whether a method is
+// declared on the pointer or on the value is not part of an anchor's
+// identity (rules that depend on it check it explicitly).
+func otherReceiverKind(name string) string {
+	if strings.HasPrefix(name, "(*") {
+		return "(" + name[2:]
+	}
+	if strings.HasPrefix(name, "(") {
+		return "(*" + name[1:]
+	}
+	return name
+}
 
 // Pos renders a position relative to the repository root.
 func (p *Prog) Pos(pos token.Pos) string {
@@ -192,11 +227,11 @@ func (p *Prog) Global(pkg, name string) *ssa.Global {
 	}
 	sp := p.ByPath[path]
 	if sp == nil {
-		HardFail("anchor package %s not found", path)
+		AnchorFail("anchor package %s not found", path)
 	}
 	g, _ := sp.Members[name].(*ssa.Global)
 	if g == nil {
-		HardFail("anchor variable %s.%s not found", path, name)
+		AnchorFail("anchor variable %s.%s not found", path, name)
 	}
 	return g
 }
@@ -209,15 +244,15 @@ func (p *Prog) ConstString(pkg, name string) string {
 	}
 	sp := p.ByPath[path]
 	if sp == nil {
-		HardFail("anchor package %s not found", path)
+		AnchorFail("anchor package %s not found", path)
 	}
 	c, _ := sp.Members[name].(*ssa.NamedConst)
 	if c == nil {
-		HardFail("anchor constant %s.%s not found", path, name)
+		AnchorFail("anchor constant %s.%s not found", path, name)
 	}
 	s, ok := ConstStr(c.Value)
 	if !ok {
-		HardFail("anchor constant %s.%s is not a string", path, name)
+		AnchorFail("anchor constant %s.%s is not a string", path, name)
 	}
 	return s
 }
@@ -230,15 +265,15 @@ func (p *Prog) ConstInt(pkg, name string) int64 {
 	}
 	sp := p.ByPath[path]
 	if sp == nil {
-		HardFail("anchor package %s not found", path)
+		AnchorFail("anchor package %s not found", path)
 	}
 	c, _ := sp.Members[name].(*ssa.NamedConst)
 	if c == nil {
-		HardFail("anchor constant %s.%s not found", path, name)
+		AnchorFail("anchor constant %s.%s not found", path, name)
 	}
 	v, ok := ConstInt(c.Value)
 	if !ok {
-		HardFail("anchor constant %s.%s is not an integer", path, name)
+		AnchorFail("anchor constant %s.%s is not an integer", path, name)
 	}
 	return v
 }
